@@ -179,6 +179,9 @@ async fn run_history(hist: &[Op]) -> Result<HistOutcome, Violation> {
     settle(20).await;
     let mut model = Model::default();
     let mut seq = 0u32;
+    // payload bytes handed to an outbound socket successfully / returned to the client
+    let mut want_up = 0usize;
+    let mut want_down = 0usize;
     let dst_of = |i: u8, peers: &Peers| peers.socks[flow_peer_index(i)].local_addr().unwrap();
     for (step, op) in hist.iter().enumerate() {
         let mut expect_peer: Vec<(usize, Vec<u8>, u8)> = vec![]; // (peer index, payload, flow)
@@ -195,6 +198,7 @@ async fn run_history(hist: &[Op]) -> Result<HistOutcome, Violation> {
                 let payload = format!("q{step}-{seq}-f{i}").into_bytes();
                 push(flow_src(*i), dst_of(*i, &peers), payload.clone());
                 notify.notify_one();
+                want_up += payload.len();
                 expect_peer.push((flow_peer_index(*i), payload, *i));
                 let f = model.flows.entry(*i).or_insert(MFlow { age: 0, pending: if *i == 3 { Some(0) } else { None }, since_created: 0, refreshed_by_reply: false });
                 f.age = 0;
@@ -217,6 +221,7 @@ async fn run_history(hist: &[Op]) -> Result<HistOutcome, Violation> {
                 let payload = format!("r{step}-{seq}-f{i}").into_bytes();
                 let _ = peers.socks[flow_peer_index(*i)].send_to(&payload, to);
                 if live {
+                    want_down += payload.len();
                     expect_client.push(VUdpOut { source: dst_of(*i, &peers), destination: flow_src(*i), payload });
                     let f = model.flows.get_mut(i).unwrap();
                     f.age = 0;
@@ -258,6 +263,8 @@ async fn run_history(hist: &[Op]) -> Result<HistOutcome, Violation> {
             }
             Op::BurstClosedPort => {
                 seq += 1;
+                // the first datagram leaves the socket; the second send meets ECONNREFUSED and relays nothing
+                want_up += format!("e{step}a").len();
                 push(flow_src(0), peers.closed_port, format!("e{step}a").into_bytes());
                 push(flow_src(0), peers.closed_port, format!("e{step}b").into_bytes());
                 notify.notify_one();
@@ -305,6 +312,14 @@ async fn run_history(hist: &[Op]) -> Result<HistOutcome, Violation> {
             return Err(fail(
                 &format!("multiplexer-terminated:{}:after-{}", op_name(Some(op)), op_name(hist.get(step.wrapping_sub(1)))),
                 format!("step {step} {op:?}: the whole UDP multiplexer ended because of one flow"),
+            ));
+        }
+        let counted = *metrics.lock().unwrap();
+        if counted[0] != want_up || counted[1] != want_down {
+            let dir = if counted[0] != want_up { "client-to-peer" } else { "peer-to-client" };
+            return Err(fail(
+                &format!("traffic-counter:{dir}:{}", op_name(Some(op))),
+                format!("step {step} {op:?}: the metrics callback counted {} bytes client->peer and {} peer->client, relayed were {want_up} and {want_down}", counted[0], counted[1]),
             ));
         }
         let gauge = vh::metrics_snapshot(&world.ctx).outbound_udp_sockets;
